@@ -28,7 +28,12 @@ SPECS = {
     "SDS": ("slots", ("d",), "DS"),
     "DSD": ("dict", ("d",), "SD"),
     "DSDS": ("slots", ("e",), "DSD"),  # depth 3
+    # constructors that assign non-None defaults (a dropped field would silently get them back)
+    "DN": ("dict", ("a", "_b"), None),
+    "SN": ("slots", ("a", "_b"), None),
 }
+
+DEFAULTS = {"DN": {"a": 7, "_b": "x"}, "SN": {"a": 5, "_b": [1]}}
 
 
 def real_name(cls_name, field):
@@ -56,7 +61,7 @@ def _make(name, module):
         if base:
             bases[0].__init__(self)
         for attr in names:
-            setattr(self, attr, None)
+            setattr(self, attr, DEFAULTS.get(name, {}).get(attr))
 
     ns = {"__init__": __init__, "__module__": module, "__qualname__": name}
     if kind == "slots":
